@@ -1,5 +1,7 @@
 import SuxModel.Base.Proto
 import SuxModel.BitVec.Model
+import SuxModel.RankSel.Hinted
+import SuxModel.RankSel.RankSmall.Model
 /-!
 # Protocol runner `bitvec` (C06, C10, C14): two registers `a` (current) and `b` (saved)
 Reply format: `<result>;<len of a>;<words of a>`.
@@ -98,6 +100,67 @@ def rstep (r : RSt) (toks : List String) : RSt × String :=
   | ["clone"] => reply { r with b := r.a } "ok"
   | ["swapab"] => reply { a := r.b, b := r.a } "ok"
   | ["conv", _] => reply r "ok"
+  -- ---- type-aware API coverage (API_COVERAGE_A.md) ----
+  -- the real `bit_vec!` forms
+  | ["macro_lit", bs] => match parseBoolString bs with
+    | some bs => mutate r (extend (withCapacity bs.length) bs) | none => bad
+  | ["macro_fill", form, n] => match parseNat n with
+    | some n =>
+      if form == "empty" then reply { r with a := new 0 } "ok"
+      else if form == "false" || form == "0" then reply { r with a := new n } "ok"
+      else if form == "true" || form == "1" then reply { r with a := withValue n true } "ok"
+      else bad
+    | none => bad
+  -- `AtomicBitVec::new` / `with_value`, converted
+  | ["anew", n] => match parseNat n with
+    | some n => reply { r with a := new n } "ok" | none => bad
+  | ["awith_value", n, b] => match parseNat n, parseBool b with
+    | some n, some b => reply { r with a := withValue n b } "ok" | _, _ => bad
+  -- `capacity()` = 64 × capacity of the backend ≥ len (the allocator's choice is not modelled)
+  | ["capacity"] => reply r "ok 1"
+  -- `*_unchecked` accessors, evaluated under their contract only
+  | ["get_unchecked", i] => match parseNat i with
+    | some i => if i < r.a.len then obs r (getU r.a i) fmtBool else reply r "out-of-contract"
+    | none => bad
+  | ["set_unchecked", i, b] => match parseNat i, parseBool b with
+    | some i, some b => if i < r.a.len then mutate r (setU r.a i b) else reply r "out-of-contract"
+    | _, _ => bad
+  | ["display"] => obs r (iterAll r.a) (fun l => "[" ++ String.join (l.map fmtBool) ++ "]")
+  | ["into_iter"] => obs r (iterAll r.a) fmtBoolList
+  | ["len2"] => reply r s!"ok {r.a.len}"
+  | ["aindex", i] => match parseNat i with
+    | some i => obs r (get r.a i) fmtBool | none => bad
+  | ["apar_fill", b] => match parseBool b with | some b => mutate r (fill r.a b) | none => bad
+  | ["apar_flip"] => mutate r (flip r.a)
+  | ["apar_reset"] => mutate r (reset r.a)
+  | ["apar_count"] => obs r (countOnes r.a) toString
+  -- `OnesIterator::new(&words, l)` / `ZerosIterator::new(&words, l)` with an arbitrary length
+  | ["ones_new", l] => match parseNat l with
+    | some l => obs r (iterOnes { r.a with len := l }) fmtNatList | none => bad
+  | ["zeros_new", l] => match parseNat l with
+    | some l => obs r (iterZeros { r.a with len := l }) fmtNatList | none => bad
+  -- borrowed view -> atomic borrowed view -> back
+  | ["sv_atomic"] => match iterAll r.a, countOnes r.a with
+    | .ok l, .ok c => reply r s!"ok {r.a.len} {fmtBoolList l} {c} {r.a.len} {fmtBoolList l}"
+    | .oob, _ | _, .oob => reply r "oob"
+    | _, _ => reply r "panic"
+  -- mutators over caller-supplied `&mut [usize]` storage (plain and through the atomic glue)
+  | ["svm_set", i, b] => match parseNat i, parseBool b with
+    | some i, some b => mutate r (set r.a i b) | _, _ => bad
+  | ["svm_aset", i, b] => match parseNat i, parseBool b with
+    | some i, some b => mutate r (set r.a i b) | _, _ => bad
+  | ["svm_fill", b] => match parseBool b with | some b => mutate r (fill r.a b) | none => bad
+  | ["svm_flip"] => mutate r (flip r.a)
+  -- the hinted primitives of `BitVec` (issued under their contracts)
+  | ["rank_hinted", p, hp, hr] => match parseNat p, parseNat hp, parseNat hr with
+    | some p, some hp, some hr => obs r (Sux.RS.RankSmall.rankHinted r.a.words p hp hr) toString
+    | _, _, _ => bad
+  | ["select_hinted", k, hp, hr] => match parseNat k, parseNat hp, parseNat hr with
+    | some k, some hp, some hr => obs r (Sux.RS.selectHinted r.a.words k hp hr) toString
+    | _, _, _ => bad
+  | ["select_zero_hinted", k, hp, hr] => match parseNat k, parseNat hp, parseNat hr with
+    | some k, some hp, some hr => obs r (Sux.RS.selectZeroHinted r.a.words k hp hr) toString
+    | _, _, _ => bad
   | _ => bad
 
 def runner : Runner := { σ := RSt, init := {}, step := rstep }
